@@ -93,20 +93,17 @@ RangeOf(c, a) ==
 \* replay.rs:71-83 get_log_entries(author, log, after, until), ascending; authors in map order
 Entries(a, r) == {o \in LogOps(stored, a, T) : o.seq > r[1] /\ o.seq <= r[2]}
 
-SeqOfSet(S) ==  \* operations of one log in ascending seq order
-    LET n == Cardinality(S)
-        f[k \in 0..n] == IF k = 0 THEN <<>>
-                         ELSE LET done == {f[k-1][j] : j \in 1..(k-1)}
-                                  nxt == CHOOSE o \in S \ done : \A p \in S \ done : o.seq <= p.seq
-                              IN Append(f[k-1], nxt)
-    IN f[n]
+\* operations of one log in ascending seq order (seq numbers of one log are distinct)
+SeqOfSet(S) ==
+    [k \in 1..Cardinality(S) |-> CHOOSE o \in S : Cardinality({p \in S : p.seq < o.seq}) = k - 1]
 
-ReplayQueue(c) ==
-    LET g[k \in 0..Len(AuthorOrder)] ==
-            IF k = 0 THEN <<>>
-            ELSE LET a == AuthorOrder[k] IN
-                 IF a \in HeightAuthors THEN g[k-1] \o SeqOfSet(Entries(a, RangeOf(c, a))) ELSE g[k-1]
-    IN g[Len(AuthorOrder)]
+RECURSIVE ReplayFrom(_, _)
+ReplayFrom(c, k) ==
+    IF k > Len(AuthorOrder) THEN <<>>
+    ELSE LET a == AuthorOrder[k] IN
+         (IF a \in HeightAuthors THEN SeqOfSet(Entries(a, RangeOf(c, a))) ELSE <<>>) \o ReplayFrom(c, k + 1)
+
+ReplayQueue(c) == ReplayFrom(c, 1)
 
 \* C15, declarative: every stored operation of the topic with a body that is not covered by the cursor
 Unacked(c) == {o \in stored : o.tp = T /\ o.body /\ o.seq > c[o.a]}
